@@ -27,9 +27,12 @@ Qed.
 Lemma verify_qc_np : forall c q, verify_qc c q <> Panic.
 Proof.
   intros c q. unfold verify_qc.
-  destruct (dq_hash q); try discriminate;
-    destruct (dq_sig q); try discriminate;
-    destruct (ds_n d <? c_q c); try discriminate; apply auth_verify_some_np.
+  destruct (dq_hash q).
+  - destruct (dq_view q =? 0); [destruct (dq_sig q)|]; discriminate.
+  - destruct (dq_sig q); try discriminate;
+      destruct (ds_n d <? c_q c); try discriminate; apply auth_verify_some_np.
+  - destruct (dq_sig q); try discriminate;
+      destruct (ds_n d <? c_q c); discriminate.
 Qed.
 
 Lemma find_valid_qc_np : forall c qs, find_valid_qc c qs <> Panic.
@@ -252,7 +255,9 @@ Lemma verify_qc_bad : forall c q, qc_bad q = true -> verify_qc c (qc_from_proto 
 Proof.
   intros c q H. unfold qc_bad in H. unfold verify_qc, qc_from_proto. cbn [dq_hash dq_sig].
   pose proof (auth_verify_bad c (q_sig q)) as A.
-  destruct (q_hash q); [discriminate| |].
+  destruct (q_hash q).
+  - cbn [dq_view]. destruct (q_view q =? 0); [|discriminate].
+    destruct (sig_from_proto (q_sig q)); [discriminate|]. cbn in H. discriminate.
   - destruct (sig_from_proto (q_sig q)) eqn:E; [|discriminate].
     destruct (ds_n d <? c_q c); [discriminate|]. apply A; exact H.
   - destruct (sig_from_proto (q_sig q)) eqn:E; [|discriminate].
